@@ -498,20 +498,20 @@ func (p *Parser) parseAccountDirective(startPos Position) ast.Directive {
 	}
 
 	accountName := p.current.Value
-	accountPos := p.current.Pos
-	accountEnd := p.current.End
+	// the token may extend over a trailing blank that is not part of the name
+	accountRange := textRange(p.current)
 	p.advance()
 
 	if p.current.Type == TokenText {
 		accountName += " " + p.current.Value
-		accountEnd = p.current.End
+		accountRange.End = textRange(p.current).End
 		p.advance()
 	}
 
 	dir := ast.AccountDirective{
 		Account: ast.Account{
 			Name:  accountName,
-			Range: ast.Range{Start: toASTPosition(accountPos), End: toASTPosition(accountEnd)},
+			Range: accountRange,
 		},
 		Range: ast.Range{Start: toASTPosition(startPos)},
 	}
@@ -562,13 +562,17 @@ func (p *Parser) parseCommodityDirective(startPos Position) ast.Directive {
 				Symbol: p.current.Value,
 				Range:  ast.Range{Start: toASTPosition(p.current.Pos), End: toASTPosition(p.current.End)},
 			}
+			if p.current.Type == TokenText {
+				// a text token extends over the blanks after the word
+				dir.Commodity.Range = textRange(p.current)
+			}
 			dir.Format = number + " " + p.commodityAsWritten(p.current)
 			p.advance()
 		}
 	case TokenText:
 		dir.Commodity = ast.Commodity{
 			Symbol: p.current.Value,
-			Range:  ast.Range{Start: toASTPosition(p.current.Pos), End: toASTPosition(p.current.End)},
+			Range:  textRange(p.current),
 		}
 		p.advance()
 	}
